@@ -325,3 +325,23 @@ pub fn any_input() -> BoxedStrategy<AnyInput> {
     ]
     .boxed()
 }
+
+/// streams whose plaintext exceeds 32 KiB (so that decoder windows wrap)
+pub fn big_output_input() -> BoxedStrategy<AnyInput> {
+    gs::stream(3, 300, 40000, None, 19).prop_map(|r| AnyInput { src: Src::Grammar(r), muts: vec![] }).boxed()
+}
+
+/// raw streams with a back-reference that reaches before the start of the output (accepted by a
+/// ring decoder, which then reads whatever the window holds)
+pub fn prestart_input() -> BoxedStrategy<AnyInput> {
+    (gs::stream(3, 20, 100, Some(false), 1), any::<u16>(), any::<u16>())
+        .prop_map(|(mut r, block, pos)| {
+            use crate::oracle::streamgen::{Block, DKind, Directive, GTok};
+            if !r.blocks.iter().any(|b| matches!(b, Block::Fixed { .. } | Block::Dynamic { .. })) {
+                r.blocks.push(Block::Fixed { toks: vec![GTok::Lit(1), GTok::Lit(2)] });
+            }
+            r.directive = Some(Directive { kind: DKind::DistTooFar, block, pos });
+            AnyInput { src: Src::Grammar(r), muts: vec![] }
+        })
+        .boxed()
+}
